@@ -433,7 +433,7 @@ def obligations(ctx):
     import re
     from .. import oblrules
     from ..mir import call_matches, callee_name
-    from ..flow import resolve_place, expr
+    from ..flow import resolve_place, expr, arg_place as arg_place_of
     prog = ctx.prog
     ENC = "<encoder::TTYEncoder as encoder::Encoder>::encode"
     lemmas = {}
@@ -499,6 +499,35 @@ def obligations(ctx):
             ctx.violation("CHUNKS-INV", itc.path, "iter-shape", "Chunks::iter is not the in-order walk (index, start from 0; start := offsets[index]; index += 1): %s / %s" % (init, writes), sites=[itc.loc])
     if ok_inv:
         lemmas[("encoder::Chunks::iter::{closure#0}", "RANGEIDX")] = ("CHUNKS-INV", "offsets is non-decreasing and every element <= buffer.len() (CHUNKS-INV), start is the previous offset")
+    # ---- SCRATCH-RESET: the SGR parameter buffer kept in the encoder is emptied before each command uses it -----------------------
+    ctx.rule("SCRATCH-RESET", "TTYEncoder::encode: every use of the persistent scratch buffer self.chunks (push/mark/write/drain, or handing it to a helper) is dominated by "
+                              "self.chunks.clear() in the same call — parameters left behind by a command that failed with an I/O error cannot leak into the next one", floor=4)
+    enc = prog.body(ENC)
+    if enc is None:
+        ctx.anchor("SCRATCH-RESET", "TTYEncoder::encode")
+    else:
+        ecfg = enc.cfg()
+        uses, clears = [], []
+        for bb, t in enc.calls():
+            for i, a in enumerate(t["args"]):
+                if a.get("k") not in ("copy", "move"):
+                    continue
+                ap = arg_place_of(enc, t, i)
+                if ap == "(*_1).chunks":
+                    if call_matches(t, r"^encoder::Chunks::clear$"):
+                        clears.append(bb)
+                    elif call_matches(t, r"^encoder::Chunks::is_empty$"):
+                        pass
+                    else:
+                        uses.append((bb, t))
+        for bb, t in uses:
+            ok = any(ecfg.dominates(c, bb) and c != bb for c in clears)
+            ctx.instance("SCRATCH-RESET", {"use": (callee_name(t) or "").split("::")[-1], "line": t["line"], "dominated_by_clear": ok})
+            if not ok:
+                ctx.violation("SCRATCH-RESET", ENC, "use-without-clear", "self.chunks is used by %s without a preceding self.chunks.clear() in this call: SGR parameters left in the buffer by an "
+                              "earlier Face/FaceModify that failed on I/O would be emitted in front of this command's parameters" % (callee_name(t) or "?"), sites=["%s:%d" % (enc.file, t["line"])])
+        if not uses:
+            ctx.anchor("SCRATCH-RESET", "chunks-uses")
     # ---- FINITE-COLOR: partial_cmp(..).unwrap() in `nearest` ---------------------------------------------------------
     ctx.rule("FINITE-COLOR", "nearest() is only called by color_sgr_encode, which is only instantiated with rasterize::RGBA (8-bit channels: finite linear components)", floor=2)
     ok_fin = True
